@@ -4,9 +4,12 @@ go 1.13
 
 require (
 	github.com/google/uuid v1.1.2
+	github.com/gorilla/websocket v1.4.1
 	go.dedis.ch/kyber/v3 v3.0.13
 	go.dedis.ch/onet/v3 v3.2.10
 	go.dedis.ch/protobuf v1.0.11
+	go.etcd.io/bbolt v1.3.4
+	golang.org/x/xerrors v0.0.0-20191011141410-1b5146add898
 )
 
 replace go.dedis.ch/onet/v3 => /repo
